@@ -20,6 +20,7 @@ import (
 
 	"github.com/jamespfennell/gtfs"
 	gtfsrt "github.com/jamespfennell/gtfs/proto"
+	"google.golang.org/protobuf/proto"
 )
 
 func c07Harness(nPairs int, extras, conflicts bool) Harness {
@@ -97,6 +98,58 @@ func c07Harness(nPairs int, extras, conflicts bool) Harness {
 	}
 }
 
+// c07UnderExtensions: a conflict-free NYCT message - a stale unassigned trip (trip update +
+// vehicle position), an assigned trip (trip update + vehicle position), an elevator alert - in
+// ALL 120 entity orders under every bundled extension family: the extension sees the entities
+// one by one, and may skip some; the result must not depend on the order it sees them in.
+func c07UnderExtensions() Harness {
+	cfgs := c06Configs()
+	pick := []int{0, 2, 3, 4, 5, 6, 20, 29} // nil, 4 nycttrips, two nyctalerts
+	return func(c *Ctx) {
+		cfg := cfgs[pick[c.Free("configuration", len(pick))]]
+		ts := uint64(1700000000)
+		nyctTD := func(trip, train string, assigned bool) *gtfsrt.TripDescriptor {
+			td := &gtfsrt.TripDescriptor{TripId: sp(trip), RouteId: sp("L"), StartDate: sp("20231114")}
+			proto.SetExtension(td, gtfsrt.E_NyctTripDescriptor, &gtfsrt.NyctTripDescriptor{TrainId: sp(train), IsAssigned: &assigned, Direction: gtfsrt.NyctTripDescriptor_NORTH.Enum()})
+			return td
+		}
+		stu := func(stop string, t int64) *gtfsrt.TripUpdate_StopTimeUpdate {
+			return &gtfsrt.TripUpdate_StopTimeUpdate{StopId: sp(stop), Arrival: &gtfsrt.TripUpdate_StopTimeEvent{Time: cp2(t)}, Departure: &gtfsrt.TripUpdate_StopTimeEvent{Time: cp2(t)}}
+		}
+		ents := []*gtfsrt.FeedEntity{
+			{Id: sp("tuStale"), TripUpdate: &gtfsrt.TripUpdate{Trip: nyctTD("060000_L..N", "0L 1000 8AV/RPY", false), StopTimeUpdate: []*gtfsrt.TripUpdate_StopTimeUpdate{stu("L01N", int64(ts)-600), stu("L02N", int64(ts)-300)}}},
+			{Id: sp("vpStale"), Vehicle: &gtfsrt.VehiclePosition{Trip: nyctTD("060000_L..N", "0L 1000 8AV/RPY", false), StopId: sp("L02N"), Timestamp: &ts}},
+			{Id: sp("tuLive"), TripUpdate: &gtfsrt.TripUpdate{Trip: nyctTD("061000_L..N", "0L 1010 8AV/RPY", true), StopTimeUpdate: []*gtfsrt.TripUpdate_StopTimeUpdate{stu("L01N", int64(ts)+60)}}},
+			{Id: sp("vpLive"), Vehicle: &gtfsrt.VehiclePosition{Trip: nyctTD("061000_L..N", "0L 1010 8AV/RPY", true), StopId: sp("L01N"), Timestamp: &ts}},
+			elevEntity(elevAlert{"A27", "N", "1"}, 0),
+		}
+		perm := c.Perm("order", len(ents))
+		m := newFeed(&ts)
+		for _, j := range perm {
+			m.Entity = append(m.Entity, ents[j])
+		}
+		b := marshalFeed(m)
+		c.Input(hash64(cfg.name+string(b)), true, func() string { return cfg.name + " order=" + entityOrder(m) })
+		c.SetMapMode(mapFree)
+		r, err, ok := parseRT(c, b, cfg.mk())
+		c.SetMapMode(mapFixed)
+		if !ok {
+			return
+		}
+		if err != nil {
+			c.Fail("valid-message-rejected", "%v", err)
+			return
+		}
+		c.Steps(len(ents))
+		got := dumpRealtime(r, rtDumpOpts{links: true, sortVehicles: true})
+		c.Outcome(got)
+		c.Relate("entity-order-independence-under-"+cfg.family, cfg.name, got)
+		if strings.Contains(cfg.name, "filterStale=true") {
+			c.Witness("extension_skips_an_entity")
+		}
+	}
+}
+
 // c07IdentifierOrder: trips whose identifiers differ in exactly one component of the key
 // (or are equal up to a later component), in every order of the entities: Trips must come out
 // strictly increasing in the documented order, and identical for every permutation.
@@ -170,7 +223,7 @@ func init() {
 	register(&Check{
 		ID:    "C07",
 		Level: "model_checking",
-		Rule: "association messages (1 pair + extras, 2 pairs; thorough: 2 pairs + extras) in ALL n! entity orders (n<=5; 4 orders beyond) x all map rotations, plus the same with conflicting duplicates (invariants only); plus every 4-subset of 13 trip descriptors that differ in one identifier component each (direction, start time, start date, schedule relationship, route, id) in all 24 orders; " +
+		Rule: "an NYCT message (stale unassigned trip as trip update + vehicle position, assigned trip as trip update + vehicle position, elevator alert) in all 120 entity orders under 8 configurations (nil, 4 nycttrips, 3 nyctalerts): one dump per configuration; association messages (1 pair + extras, 2 pairs; thorough: 2 pairs + extras) in ALL n! entity orders (n<=5; 4 orders beyond) x all map rotations, plus the same with conflicting duplicates (invariants only); plus every 4-subset of 13 trip descriptors that differ in one identifier component each (direction, start time, start date, schedule relationship, route, id) in all 24 orders; " +
 			"non-trivial = distinct messages with >= 2 entities; oracles = cross-execution relation (message up to order -> dump), order-independent reference, sortedness/uniqueness invariants",
 		Assumptions: []string{"the identifier order is the documented field order (id, route, direction, start time, start date, schedule relationship)"},
 		Scenarios: func(tier string) []*Scenario {
@@ -179,6 +232,7 @@ func init() {
 				{Name: "two-pairs", Bound: -1, Run: c07Harness(2, false, false)},
 				{Name: "one-pair+conflicts", Bound: -1, Run: c07Harness(1, false, true)},
 				{Name: "identifier-order", Bound: -1, Run: c07IdentifierOrder},
+				{Name: "orders-under-extensions", Bound: -1, Run: c07UnderExtensions()},
 			}
 			if tier == "thorough" {
 				s = append(s, &Scenario{Name: "two-pairs+extras", Bound: -1, Run: c07Harness(2, true, false)},
